@@ -248,7 +248,7 @@ def rNats (l : List Nat) : String := " ".intercalate (l.map toString)
 
 def rBool (b : Bool) : String := if b then "1" else "0"
 
-def rInnerParams : Inner F → String
+def rInnerParams : InnerLayer F → String
   | .dense d => s!"dense {rTensor d.weights} {rOptTensor d.bias}"
   | .conv d => "conv " ++ " ".intercalate (d.kernels.map rTensor)
   | .deconv d => "deconv " ++ " ".intercalate (d.kernels.map rTensor)
@@ -413,13 +413,13 @@ def handle (op : String) : P String := do
           rV1 r.valAcc ++ " | " ++ rNetParams r.net ++ " flags " ++ " ".intercalate (r.net.flags.map rBool)))
     | _ => throw s!"unknown net command {cmd}"
   /- random.rs -/
-  | "rnd.tof32" => do let n ← nat; pure s!"ok {Random.toF32 n}"
+  | "rnd.tof32" => do let n ← nat; pure s!"ok {Rng.toF32 n}"
   | "rnd.generate" => do
     let seed ← nat; let lo ← flt; let hi ← flt; let n ← nat
-    pure (respond (Random.generateN lo hi n (Random.create seed)) (fun r => s!"{r.1.current} {rV1 r.2}"))
+    pure (respond (Rng.generateN lo hi n (Rng.create seed)) (fun r => s!"{r.1.current} {rV1 r.2}"))
   | "rnd.shuffle" => do
     let seed ← nat; let n ← nat; let vals ← many nat n
-    pure (respond (Random.shuffle F (Random.create seed) vals) (fun r => s!"{r.1.current} {rNats r.2}"))
+    pure (respond (Rng.shuffle F (Rng.create seed) vals) (fun r => s!"{r.1.current} {rNats r.2}"))
   | _ => throw s!"unknown op {op}"
 
 def handleLine (line : String) : String :=
